@@ -42,7 +42,7 @@ a ++ b == PAdd(a, b)
 
 Gens == {"x", "r", "s", "c", "e", "e2", "ln2", "iln2", "iln10", "ilnb", "m", "l", "lb", "l10", "lg",
          "r1", "l1", "sin", "cos", "sh", "ch", "tan", "tanh", "u", "as", "ac", "w", "at", "v", "ash",
-         "y", "ach", "z", "ath", "p", "n", "j0", "j1"}
+         "y", "ach", "z", "ath", "p", "n", "j0", "j1", "pw0", "pw1", "pw2", "pw3", "pw4", "pw5"}
 
 \* what each generator stands for (documentation; the Rust dictionary implements it)
 GenMeaning ==
@@ -53,7 +53,8 @@ GenMeaning ==
      ch |-> "cosh(x)", tan |-> "tan(x)", tanh |-> "tanh(x)", u |-> "(1-x^2)^(-1/2)", as |-> "asin(x)",
      ac |-> "acos(x)", w |-> "1/(1+x^2)", at |-> "atan(x)", v |-> "(1+x^2)^(-1/2)", ash |-> "asinh(x)",
      y |-> "(x^2-1)^(-1/2)", ach |-> "acosh(x)", z |-> "1/(1-x^2)", ath |-> "atanh(x)",
-     p |-> "x^(n-3)", n |-> "the exponent n (a constant)", j0 |-> "J0(x)", j1 |-> "J1(x)"]
+     p |-> "x^(n-3)", n |-> "the exponent n (a constant)", j0 |-> "J0(x)", j1 |-> "J1(x)",
+     pw0 |-> "x^n", pw1 |-> "x^(n-1)", pw2 |-> "x^(n-2)", pw3 |-> "x^(n-3)", pw4 |-> "x^(n-4)", pw5 |-> "x^(n-5)"]
 
 GenD(g) ==
     CASE g = "x"   -> P1
@@ -88,6 +89,13 @@ GenD(g) ==
       [] g = "z"   -> QC(2, 1) ** G("x") ** GP("z", 2)
       [] g = "ath" -> G("z")
       [] g = "p"   -> PSub(G("n"), PInt(3)) ** G("p") ** G("r")
+      \* x^(n-j) without a detour through 1/x (finite at x = 0 whenever the power is)
+      [] g = "pw0" -> G("n") ** G("pw1")
+      [] g = "pw1" -> PSub(G("n"), PInt(1)) ** G("pw2")
+      [] g = "pw2" -> PSub(G("n"), PInt(2)) ** G("pw3")
+      [] g = "pw3" -> PSub(G("n"), PInt(3)) ** G("pw4")
+      [] g = "pw4" -> PSub(G("n"), PInt(4)) ** G("pw5")
+      [] g = "pw5" -> P0           \* (never differentiated: towers stop at order four)
       [] g = "j0"  -> PNeg(G("j1"))
       [] g = "j1"  -> PSub(G("j0"), G("r") ** G("j1"))
 
@@ -115,6 +123,7 @@ FnPoly(fn) ==
       [] fn = "asinh" -> G("ash")    [] fn = "acosh" -> G("ach")    [] fn = "atanh" -> G("ath")
       \* x^n = p x^3 with p = x^(n-3): every real (also symbolic) exponent
       [] fn = "pow" -> G("p") ** GP("x", 3)
+      [] fn = "powx" -> G("pw0")
       \* spherical Bessel functions, closed forms
       [] fn = "sph_j0" -> G("sin") ** G("r")
       [] fn = "sph_j1" -> PSub(G("sin"), G("x") ** G("cos")) ** GP("r", 2)
@@ -126,7 +135,7 @@ FnPoly(fn) ==
       [] fn = "bessel_j2" -> PSub(QC(2, 1) ** G("j1") ** G("r"), G("j0"))
 
 AllFns == {"recip", "sqrt", "cbrt", "exp", "exp2", "exp_m1", "ln", "log2", "log10", "log", "ln_1p", "sin",
-           "cos", "tan", "sinh", "cosh", "tanh", "asin", "acos", "atan", "asinh", "acosh", "atanh", "pow",
+           "cos", "tan", "sinh", "cosh", "tanh", "asin", "acos", "atan", "asinh", "acosh", "atanh", "pow", "powx",
            "sph_j0", "sph_j1", "sph_j2", "bessel_j0", "bessel_j1", "bessel_j2"}
 
 ---------------------------------------------------------------------------
@@ -177,7 +186,8 @@ Env(q) ==
            [] g = "p" -> PVar("p")
            [] g = "n" -> PVar("n")
            [] g = "j0" -> PVar("j0")
-           [] g = "j1" -> PVar("j1")]
+           [] g = "j1" -> PVar("j1")
+           [] OTHER -> PVar(g)]
 
 TowerAt(fn, q) == LET t == Tower(FnPoly(fn))  ev == Env(q) IN [k \in 1..5 |-> PSubst(t[k], ev)]
 
@@ -247,6 +257,14 @@ PowiOK(q, n) ==
     IN  \A k \in 1..4 : bt[k] = at[k]
 \* (squares as bases: every half-integer power is rational, so that x^n, x^(n-1), ... computed
 \*  separately by the code can be compared exactly with p x^3, p x^2, ...)
+\* the two representations of the power tower agree: substitute pw_j = p x^(3-j)
+PowxOK ==
+    LET tp == Tower(FnPoly("pow"))  tx == Tower(FnPoly("powx"))
+        sub == [g \in {"pw0", "pw1", "pw2", "pw3", "pw4"} |->
+                  CASE g = "pw0" -> G("p") ** GP("x", 3) [] g = "pw1" -> G("p") ** GP("x", 2)
+                    [] g = "pw2" -> G("p") ** G("x") [] g = "pw3" -> G("p") [] g = "pw4" -> G("p") ** G("r")]
+        rx == [g \in {"r"} |-> PTerm(Q1, MPow("x", -1))]
+    IN  \A k \in 1..5 : PSubst(PSubst(tx[k], sub), rx) = PSubst(tp[k], rx)
 PowBases == {<<4, 1>>, <<9, 4>>, <<1, 4>>}
 PowBasesI == {<<2, 1>>, <<1, 2>>, <<3, 1>>, <<-2, 1>>, <<-1, 2>>, <<-3, 2>>}
 PowExpsF == {<<1, 2>>, <<5, 2>>, <<3, 2>>, <<-1, 2>>, <<-3, 2>>, <<3, 1>>, <<4, 1>>, <<-1, 1>>}
@@ -276,6 +294,7 @@ Spec == Init /\ [][Next]_ob
 TowersAgree ==
     /\ ob.k = "closed" => ClosedFormOK(ob.fn, ob.q) /\ GatingOK(ob.fn, ob.q)
     /\ ob.k = "composite" => CompositeOK(ob.fn, ob.q)
+    /\ ob.k = "root" => PowxOK
     /\ ob.k = "powf" => PowfOK(ob.q, ob.n)
     /\ ob.k = "powi" => PowiOK(ob.q, ob.n)
 Export == ob.k = "export" => PrintT(<<"TOWER", ToJson(TowerJson(ob.fn))>>)
